@@ -61,7 +61,9 @@ def oracle(case, tool, ob):
                                                    f"({[d[0] for d in errs][:4]})")
     if case.verdict == "accept":
         if nonzero or errs:
-            return (f"{tool}:{case.cls}:rejected", f"{tool} rejects a well-formed file: status {st}, {[(d[0], d[3]) for d in errs][:3]}")
+            return (getattr(case, "finding_key", None) or f"{tool}:{case.cls}:rejected",
+                    f"{tool} rejects a well-formed file: status {st}, {[(d[0], d[3]) for d in errs][:3]}" +
+                    (f" ({case.note})" if getattr(case, "finding_key", None) else ""))
     else:
         if not nonzero or not errs:
             return (f"{tool}:{case.cls}:accepted", f"{tool} accepts a file with a {case.cls} fault: status {st}, no ERROR ({case.note})")
@@ -90,6 +92,8 @@ def run_cases(ctx, b, model, table, cases, label, tools):
             if v:
                 n_viol += 1
                 report(ctx, c, t, ob, v)
+                continue
+            if getattr(c, "oracle_only", False):
                 continue
             m = X.parse_run_reply(replies[ci][1 + ti], table)
             drop = X.ORDER_DEPENDENT | ({"OVERLOADED_ATTR", "UNKNOWN_ATTR_IN_ENTITY"} if c.cls == "subtype-cycle" else set())
@@ -142,6 +146,8 @@ def corpus_cases():
         out.append(X.Case(f[:-5], bytes.fromhex(d["input_hex"]), d["proto"], d["cls"], [tuple(x) for x in d["expect"]],
                           d["verdict"], d.get("warn", False), d.get("note", "")))
         out[-1].fixed_lines = True      # the stored description carries 0-based line numbers: lines are not compared
+        out[-1].oracle_only = d.get("oracle_only", False)   # outside the model (cross-schema inheritance): judged by the oracle alone
+        out[-1].finding_key = d.get("finding_key")
     return out
 
 
@@ -189,6 +195,9 @@ def run(ctx):
     rrng = _random.Random(f"ring:{getattr(ctx, 'seed', 0)}")
     chains += [X.gen_ring_case(rrng, f"rg{k}", missing=(k % 3 == 2)) for k in range(12 if not big else 150)]
     streams.append(("chained-imports", chains, ["check-express"] if quick else X.TOOLS))
+    xrng = _random.Random(f"xinherit:{getattr(ctx, 'seed', 0)}")
+    xin = [X.gen_xinherit_case(xrng, f"xi{k}", X.XI_FAULTS[k % len(X.XI_FAULTS)]) for k in range(30 if not big else 600)]
+    streams.append(("cross-schema-inheritance", xin, X.TOOLS))
     graphs = []
     for k in range(60 if not big else 3000):
         graphs.append(X.gen_graph_case(ctx.rng, f"gs{k}", "sub", outside=(k % 2 == 0)))
